@@ -48,6 +48,15 @@ type interpreter struct {
 	funcsSeen          map[*ssa.Function]int64
 	trace              bool
 	sched              *scheduler
+	intercepts         map[string]int
+	methodCache        map[methodKey]*ssa.Function
+	extCache           map[*ssa.Function]externalFn
+	extMiss            map[*ssa.Function]bool
+}
+
+type methodKey struct {
+	t  types.Type
+	id string
 }
 
 type deferred struct {
@@ -257,7 +266,16 @@ func lookupMethod(i *interpreter, typ types.Type, meth *types.Func) *ssa.Functio
 	case errorType:
 		return i.errorMethods[meth.Id()]
 	}
-	return i.prog.LookupMethod(typ, meth.Pkg(), meth.Name())
+	k := methodKey{typ, meth.Id()}
+	if f, ok := i.methodCache[k]; ok {
+		return f
+	}
+	f := i.prog.LookupMethod(typ, meth.Pkg(), meth.Name())
+	if i.methodCache == nil {
+		i.methodCache = map[methodKey]*ssa.Function{}
+	}
+	i.methodCache[k] = f
+	return f
 }
 
 func (fr *frame) pos() string {
@@ -538,12 +556,20 @@ func callSSA(i *interpreter, caller *frame, callpos token.Pos, fn *ssa.Function,
 		fr.g = caller.g
 	}
 	if fn.Parent() == nil {
-		name := fn.String()
-		if fn.Origin() != nil {
-			name = fn.Origin().String()
-		}
-		if ext := lookupExternal(i, fn, name); ext != nil {
-			return ext(fr, args)
+		if !i.extMiss[fn] {
+			name := fn.String()
+			if fn.Origin() != nil {
+				name = fn.Origin().String()
+			}
+			if ext := lookupExternal(i, fn, name); ext != nil {
+				return ext(fr, args)
+			}
+			if i.p == nil || i.p.c == nil || len(i.p.c.H.stubs) == 0 {
+				if i.extMiss == nil {
+					i.extMiss = map[*ssa.Function]bool{}
+				}
+				i.extMiss[fn] = true
+			}
 		}
 		if fn.Blocks == nil && fn.Pkg != nil {
 			buildPkg(fn.Pkg)
@@ -553,7 +579,7 @@ func callSSA(i *interpreter, caller *frame, callpos token.Pos, fn *ssa.Function,
 			for f, k := caller, 0; f != nil && k < 6; f, k = f.caller, k+1 {
 				chain += " <- " + f.fn.String()
 			}
-			panic(pathEnd{stUnsupported, "no code for function: " + name + chain})
+			panic(pathEnd{stUnsupported, "no code for function: " + fn.String() + chain})
 		}
 	}
 
